@@ -223,7 +223,12 @@ func (b c18Big) spec() *specs.Spec {
 	}
 	val := strings.Repeat(unit, b.Units)
 	s := &specs.Spec{Version: "0.6.0", Kind: "vendor.com/class", Devices: []specs.Device{{Name: "d0", ContainerEdits: specs.ContainerEdits{Env: []string{"A=1"}}}}}
-	if b.Where == "spec" {
+	if b.Where == "each-in-its-own-set" {
+		// three annotation sets (Spec, two devices), each within the limit on its own, under different keys
+		s.Annotations = map[string]string{"vendor.com/blob-s": val}
+		s.Devices[0].Annotations = map[string]string{"vendor.com/blob-a": val}
+		s.Devices = append(s.Devices, specs.Device{Name: "d1", Annotations: map[string]string{"vendor.com/blob-b": val}, ContainerEdits: specs.ContainerEdits{Env: []string{"B=1"}}})
+	} else if b.Where == "spec" {
 		s.Annotations = map[string]string{c18BigKey: val}
 	} else {
 		s.Devices[0].Annotations = map[string]string{c18BigKey: val}
@@ -239,7 +244,7 @@ func TestC18BigAnnotations(t *testing.T) {
 	env := &c18Env{base: t.TempDir()}
 	const limit = 256 * 1024
 	for _, f := range c18Fills {
-		for _, where := range []string{"spec", "device"} {
+		for _, where := range []string{"spec", "device", "each-in-its-own-set"} {
 			// unit counts that put the value just below / at / above the limit, as given and as written
 			var counts []int
 			for _, per := range []int{len(f.unit), f.written} {
@@ -247,6 +252,9 @@ func TestC18BigAnnotations(t *testing.T) {
 				counts = append(counts, n-1, n, n+1, n+2)
 			}
 			counts = append(counts, 1000)
+			if where == "each-in-its-own-set" {
+				counts = []int{150 * 1024 / f.written, 100 * 1024 / f.written}
+			}
 			for _, n := range counts {
 				c := c18Big{Fill: f.name, Units: n, Where: where}
 				msg, refused := env.check(c.spec())
